@@ -50,6 +50,7 @@ type Engine struct {
 	recClos   map[*ssa.Function]bool
 	propRules []propRule
 	scanMode  bool
+	frameClosed bool
 }
 
 type propRule struct {
@@ -416,6 +417,47 @@ func (e *Engine) propsFor(fn, kind string) []string {
 		}
 	}
 	return out
+}
+
+// closeFrameRules extends the frame rules of props.map (kinds modifies / frame / modifies-global) along the call
+// graph found by the scan pass: if a function is under a frame property, so is every function of the package that
+// it calls (transitively), whether or not props.map names it. A helper introduced later — or a callee that has
+// no contract and is therefore only havoc'd at the call site — cannot escape the no-write obligations that way.
+func (e *Engine) closeFrameRules() {
+	if e.frameClosed {
+		return
+	}
+	e.frameClosed = true
+	byKey := map[string]*ssa.Function{}
+	for _, fn := range e.allFns {
+		byKey[e.fnKey(fn)] = fn
+	}
+	var extra []propRule
+	for _, r := range e.propRules {
+		if r.kindGlob != "modifies" && r.kindGlob != "frame" && r.kindGlob != "modifies-global" {
+			continue
+		}
+		seen := map[*ssa.Function]bool{}
+		var work []*ssa.Function
+		for k, fn := range byKey {
+			if globMatch(r.fnGlob, k) {
+				seen[fn] = true
+				work = append(work, fn)
+			}
+		}
+		for len(work) > 0 {
+			f := work[len(work)-1]
+			work = work[:len(work)-1]
+			for g := range e.calls[f] {
+				if !seen[g] && e.inTarget(g) {
+					seen[g] = true
+					work = append(work, g)
+					extra = append(extra, propRule{fnGlob: e.fnKey(g), kindGlob: r.kindGlob, props: r.props})
+				}
+			}
+		}
+	}
+	e.propRules = append(e.propRules, extra...)
 }
 
 // ---- spec loading ----
